@@ -95,4 +95,13 @@ theorem source_collect_order :
 theorem source_sweep_cannot_abort :
     project gcVoc gcPrefix = ["list", "delete"] ∧ gcPrefix.contains "raise" = false := by decide
 
+/-- **source_marker_listing_failure_aborts** — in the CURRENT `_load_inflight_protection` a failing listing of the marker
+directory aborts the collection (the defect repaired by 5868c83 read it as "no markers"); an unreadable marker age and a failed
+removal of an abandoned marker do not abort, and a marker whose removal failed keeps protecting. -/
+theorem source_marker_listing_failure_aborts :
+    project [("storage.list_files", "list"), ("except:Exception", "onError"), ("raise:GarbageCollectionAborted", "abort"),
+             ("storage.get_modified_time", "age"), ("_marker_targets", "targets"), ("protected.update", "protect"),
+             ("storage.delete_file", "dropMarker")] gcLoadInflight
+      = ["list", "onError", "abort", "age", "onError", "targets", "protect", "dropMarker", "onError", "protect"] := by decide
+
 end DSV.Src.C07
